@@ -55,7 +55,8 @@ def tree_step(ctx, facts, rule="TREE-STEP"):
     wc = nf.all_conditions(t, ws[0][0], stop=None)
     guards = [c for c in wc if c[0] == "truth" and c[2] is True and _re.match(r"^\w+$", c[1])]
     MORE = guards[0][1] if guards else None
-    if MORE is None or [c for c in wc if c != ("truth", MORE, True)]:
+    flagless = MORE is None and not nf.all_conditions(t, ws[0][0], stop=loop)
+    if not flagless and (MORE is None or [c for c in wc if c != ("truth", MORE, True)]):
         problems.append(("store", "the store is conditional on %s" % wc))
     PARENT = {"((%s / 2) + self.m)" % K, "(self.m + (%s / 2))" % K, "((%s >> 1) + self.m)" % K}
     SIB = {"self.values[(1 ^ %s)]" % K, "self.values[(%s ^ 1)]" % K}
@@ -79,7 +80,13 @@ def tree_step(ctx, facts, rule="TREE-STEP"):
     trues = [c for (v, c) in mores if v == "true"]
     direct = init == ["(%s < self.values[%s])" % (V, K)] and not trues          # let mut more = value < values[k];
     classic = init == ["false"] and len(trues) == 1 and trues[0][:1] == [("cmp", V, "<", "self.values[%s]" % K)]
-    if not (direct or classic):
+    if flagless:
+        # no flag: the loop is entered only past a guard clause `if !(value < values[k]) { return }` (or inside `if value < values[k]`)
+        entry = nf.control_facts(t, loop, res=R)
+        kinit = dk[0] if dk else K
+        if not any(c_[0] == "cmp" and c_[2] == "<" and c_[1] in (V, P_V) and c_[3] in ("self.values[%s]" % K, "self.values[%s]" % kinit) for c_ in entry):
+            problems.append(("start", "the walk loop is not entered under `value < values[k]` (strict: slots only decrease); it is entered under %s" % entry[:2]))
+    elif not (direct or classic):
         problems.append(("start", "the walk must start exactly when value < values[k] (strict: slots only decrease); the flag starts as %s and is set when %s" % (init, trues)))
     falses = [c for (v, c) in mores if v == "false"]
     for c in falses:
@@ -97,7 +104,9 @@ def tree_step(ctx, facts, rule="TREE-STEP"):
             root = len(c) >= 1 and c[0][0] == "cmp" and c[0][1] == "self.last_index" and c[0][2] == "<" and c[0][3] in PARENT
             equal = len(c) == 2 and all(x[0] == "cmp" and x[2] == "<=" and x[1] in {"self.values[%s]" % p_ for p_ in PARENT} for x in c) and \
                 {x[3] for x in c} in ({"self.values[%s]" % K} | {s_} for s_ in SIB)
-            if not (root or equal):
+            # without a flag, `if carried >= values[parent] { break }` after the move to the parent is the ordinary end of the walk
+            stop_ = flagless and c in ([("cmp", "self.values[%s]" % K, "<=", V)], [("cmp", "self.values[%s]" % K, "<", V)])
+            if not (root or equal or stop_):
                 problems.append(("exit", "the walk is abandoned when %s: only 'parent beyond the root' or 'parent equals both children' may end it early" % shown[:2]))
         else:
             problems.append(("exit", "the walk is left by %s" % kind))
